@@ -30,7 +30,13 @@ ALLOW = os.path.join(VERIF, 'trusted_allowlist.txt')
 MINIMUMS = os.path.join(VERIF, 'units', 'minimums.json')
 
 # properties whose witness search is deterministic (no timing, no socket-buffer dependence)
-WITNESS_FALLBACK = ('C01', 'C02', 'C03', 'C04', 'C05', 'C06', 'C11', 'C12', 'C13', 'C14', 'C15', 'C16', 'C17')
+# property -> (witness mode, stated bound) of the always-on bounded server scenarios
+SCENARIOS = {
+    'C04': ('C04s', '7 histories: limit at connect x limit changed later x declared length around the limit, one client, through HttpServer'),
+    'C07': ('C07', '2 histories: four answers in one enqueue_responses batch for two clients; close with a request in flight, late answer, second client'),
+    'C09': ('C09', '1 history: pipelined requests, shutdown(Read), answers, a second client must still be served'),
+}
+WITNESS_FALLBACK = ('C01', 'C02', 'C03', 'C04', 'C05', 'C06', 'C07', 'C09', 'C11', 'C12', 'C13', 'C14', 'C15', 'C16', 'C17')
 
 TRUST_PATTERNS = [r'\bassume\s*\(', r'\badmit\s*\(', r'external_body', r'assume_specification',
                   r'external_type_specification', r'external_trait_specification', r'\buninterp\b',
@@ -175,7 +181,7 @@ def canary_check(unit, seed, tier, repo):
                 fns=chosen, missed=sorted(set(chosen) - set(caught)))
 
 
-ALL_UNITS = ['conn', 'lemmas', 'oneshot', 'request', 'client', 'response', 'router', 'headers']
+ALL_UNITS = ['conn', 'lemmas', 'oneshot', 'request', 'client', 'response', 'router', 'headers', 'server']
 
 
 def inventory():
@@ -444,6 +450,26 @@ def main():
                 else:
                     undecided.append('kani %s: %s' % (h['name'], h['status']))
 
+    # Bounded stand-in for the part of the server that no contract reaches (HttpServer::requests /
+    # handle_new_connection: epoll, accept, closure chains): fixed client/application histories driven through the
+    # REAL server on every run.  Labelled bounded, never counted as proved; a finding is a concrete, reproduced history.
+    scen_wit = None
+    if prop in SCENARIOS and not os.environ.get('VERIF_NO_WITNESS'):
+        scen_wit = witness(SCENARIOS[prop][0], 'scenario', tier)
+        st = scen_wit.get('status')
+        bounded.append(dict(harness='wit ' + SCENARIOS[prop][0], bound=SCENARIOS[prop][1], complete=False,
+                            status='success' if st == 'not-found' else ('failed' if st == 'found' else str(st)), checks=scen_wit.get('tried'), wall_s=None))
+        if st == 'found':
+            violations.append(dict(clause='scenario.' + SCENARIOS[prop][0], fn='HttpServer (requests / handle_new_connection / respond)', tags=[prop],
+                                   message='server history: observed %s; expected %s' % (scen_wit.get('observed'), scen_wit.get('expected')),
+                                   rendered=json.dumps(scen_wit, indent=1), unit='witness', site='server history', kind='scenario'))
+            obligations += 1
+        elif st == 'not-found':
+            obligations += 1
+            discharged += 1
+        else:
+            undecided.append('server scenarios: %s' % str(scen_wit)[:300])
+
     # An obligation that fails in a function whose proof hints no longer fit the code (renamed locals,
     # restructured statements) proves nothing: the proof script, not the property, may be what broke.
     def secondary_for_prop(v):
@@ -455,7 +481,7 @@ def main():
     is_amb = lambda v: (v.get('unit'), v.get('fn')) in shaky or secondary_for_prop(v)
     ambiguous = [v for v in violations if is_amb(v)]
     violations = [v for v in violations if not is_amb(v)]
-    amb_wit = None
+    amb_wit = scen_wit if (scen_wit and scen_wit.get('status') == 'found') else None
     if ambiguous and not violations:
         amb_wit = witness(prop, ambiguous[0]['clause'], tier) if prop in WITNESS_FALLBACK else None
         if amb_wit and amb_wit.get('status') == 'found':
